@@ -64,6 +64,58 @@ func handmadeConfig() (*fedlab.Config, *fedlab.Universe) {
 	return cfg, uni
 }
 
+// handmadeFedConfig: the smallest federation with an entity hop on an interface (seeded regression C01-m4):
+//
+//	catalog: type Query { nodes: [Node!]! }  interface Node { id: ID! owner: User }
+//	         type A implements Node { id extra owner }  type B implements Node { id owner }  type User @key(fields: "id") { id }
+//	users:   type User @key(fields: "id") { id name: String! }
+func handmadeFedConfig() (*fedlab.Config, *fedlab.Universe) {
+	str := func() *fedlab.TypeRef { return fedlab.Named("String") }
+	idf := func() *fedlab.FieldDef { return &fedlab.FieldDef{Name: "id", Type: fedlab.NonNull(fedlab.Named("ID"))} }
+	owner := func() *fedlab.FieldDef { return &fedlab.FieldDef{Name: "owner", Type: fedlab.Named("User")} }
+	super := &fedlab.Schema{Query: "Query", Types: []*fedlab.TypeDef{
+		{Kind: fedlab.KObject, Name: "Query", Fields: []*fedlab.FieldDef{{Name: "nodes", Type: fedlab.NonNull(fedlab.ListOf(fedlab.NonNull(fedlab.Named("Node"))))}}},
+		{Kind: fedlab.KInterface, Name: "Node", Fields: []*fedlab.FieldDef{idf(), owner()}},
+		{Kind: fedlab.KObject, Name: "A", Implements: []string{"Node"}, Fields: []*fedlab.FieldDef{idf(), {Name: "extra", Type: str()}, owner()}},
+		{Kind: fedlab.KObject, Name: "B", Implements: []string{"Node"}, Fields: []*fedlab.FieldDef{idf(), owner()}},
+		{Kind: fedlab.KObject, Name: "User", Fields: []*fedlab.FieldDef{idf(), {Name: "name", Type: fedlab.NonNull(str())}}},
+	}}
+	sf := func(names ...string) []*fedlab.SubField {
+		var out []*fedlab.SubField
+		for _, n := range names {
+			out = append(out, &fedlab.SubField{Name: n})
+		}
+		return out
+	}
+	cfg := &fedlab.Config{Super: super, Lookups: map[string]fedlab.Lookup{}, Subgraphs: []*fedlab.Subgraph{
+		{Name: "catalog", Types: []*fedlab.SubType{
+			{Name: "Query", Fields: sf("nodes")}, {Name: "Node", Fields: sf("id", "owner")},
+			{Name: "A", Fields: sf("id", "extra", "owner")}, {Name: "B", Fields: sf("id", "owner")},
+			{Name: "User", Keys: []string{"id"}, Fields: sf("id")}}},
+		{Name: "users", Types: []*fedlab.SubType{
+			{Name: "Query"}, {Name: "User", Keys: []string{"id"}, Fields: sf("id", "name")}}},
+	}}
+	sc := func(s string) *fedlab.FVal { return &fedlab.FVal{Kind: fedlab.FSc, JSON: fedlab.JS(s)} }
+	ref := func(t, k string) *fedlab.FVal { return &fedlab.FVal{Kind: fedlab.FRef, Type: t, Key: k} }
+	uni := &fedlab.Universe{Ents: []*fedlab.Entity{
+		{Type: "Query", Key: "", Fields: []fedlab.FV{{Name: "nodes", Val: &fedlab.FVal{Kind: fedlab.FLst, Items: []*fedlab.FVal{ref("A", "a1"), ref("B", "b1")}}}}},
+		{Type: "A", Key: "a1", Fields: []fedlab.FV{{Name: "id", Val: sc("a1")}, {Name: "extra", Val: sc("extra-a1")}, {Name: "owner", Val: ref("User", "u1")}}},
+		{Type: "B", Key: "b1", Fields: []fedlab.FV{{Name: "id", Val: sc("b1")}, {Name: "owner", Val: ref("User", "u2")}}},
+		{Type: "User", Key: "u1", Fields: []fedlab.FV{{Name: "id", Val: sc("u1")}, {Name: "name", Val: sc("name-u1")}}},
+		{Type: "User", Key: "u2", Fields: []fedlab.FV{{Name: "id", Val: sc("u2")}, {Name: "name", Val: sc("name-u2")}}},
+	}}
+	return cfg, uni
+}
+
+// handmadeFedOps run on handmadeFedConfig; they pass on a correct engine (regression guards).
+var handmadeFedOps = map[string][]*fedlab.Sel{
+	// the entity hop on the interface and once more below `... on A`: two identical entity fetches for nodes.@.owner,
+	// one unscoped, one scoped to [A], are de-duplicated -- the merged fetch must be unscoped, or B's owner is never fetched
+	"entity-hop-on-interface-and-under-one-implementer": {fld("nodes",
+		fld("owner", fld("name")),
+		on("A", fld("extra"), fld("owner", fld("name"))))},
+}
+
 func fld(name string, sels ...*fedlab.Sel) *fedlab.Sel {
 	return &fedlab.Sel{Kind: fedlab.SField, Name: name, Sels: sels}
 }
@@ -106,16 +158,24 @@ var handmadeOps = map[string][]*fedlab.Sel{
 
 func cmdHandmade(a map[string]string) {
 	sels, ok := handmadeOps[a["name"]]
+	cfg, uni := handmadeConfig()
+	knobs := fedlab.Knobs{"interfaces": true, "lists": true, "inlinefragments": true, "covariant": true}
+	if fsels, fok := handmadeFedOps[a["name"]]; fok {
+		sels, ok = fsels, true
+		cfg, uni = handmadeFedConfig()
+		knobs = fedlab.Knobs{"interfaces": true, "lists": true, "nonnull": true, "inlinefragments": true, "scopedhops": true}
+	}
 	if !ok {
 		fmt.Println("unknown name; known:")
 		for n := range handmadeOps {
 			fmt.Println("  " + n)
 		}
+		for n := range handmadeFedOps {
+			fmt.Println("  " + n)
+		}
 		os.Exit(2)
 	}
-	cfg, uni := handmadeConfig()
-	c := &fedlab.Case{Knobs: fedlab.Knobs{"interfaces": true, "lists": true, "inlinefragments": true, "covariant": true},
-		Cfg: cfg, Uni: uni, Op: &fedlab.Operation{Sels: sels, Variables: fedlab.JO()}}
+	c := &fedlab.Case{Knobs: knobs, Cfg: cfg, Uni: uni, Op: &fedlab.Operation{Sels: sels, Variables: fedlab.JO()}}
 	r := &runner{replays: a["replaydir"]}
 	defer r.close()
 	v, err := r.run(c, "handmade")
